@@ -1006,4 +1006,210 @@ theorem step_sendDown {st st' : St} {me rest} (hI : Inv st)
       · left; exact hv
       · right; exact ⟨l, by simp [updT_ne _ _ h]; exact hl, hk⟩
 
+theorem step_register {st st' : St} {me w rest} (hI : Inv st)
+    (hp : (st.threads me).pgm = .register w :: rest) (hs : step me st = some st') : Inv st' := by
+  have hme := me_lt hI hp
+  have hw := hI.wf me
+  unfold TWF at hw; rw [hp] at hw
+  simp only [wfp, Bool.and_eq_true, Option.isNone_iff_eq_none] at hw
+  obtain ⟨⟨⟨hheld, hdrop⟩, hsnap⟩, hrest⟩ := hw
+  have hsnap' : (st.threads me).snapping = none := by
+    cases h : (st.threads me).snapping <;> simp [h] at hsnap ⊢
+  simp only [step, hp] at hs
+  injection hs with hs; subst hs
+  have hq0 := hI.idsQ st.nextSub (Nat.le_refl _)
+  constructor <;> dsimp only
+  · intro i hi
+    have : i ≠ me := by omega
+    simp only [updT_ne _ _ this]; exact hI.idle i hi
+  · intro i
+    by_cases h : i = me
+    · subst h; unfold TWF
+      cases w <;> simpa using hrest
+    · simpa [updT_ne _ _ h] using hI.wf i
+  · intro i j k' hi hj
+    have hi' : (st.threads i).held = some k' := by
+      by_cases h : i = me
+      · subst h; simpa using hi
+      · simpa [updT_ne _ _ h] using hi
+    have hj' : (st.threads j).held = some k' := by
+      by_cases h : j = me
+      · subst h; simpa using hj
+      · simpa [updT_ne _ _ h] using hj
+    exact hI.excl i j k' hi' hj'
+  · intro i k' hi
+    by_cases h : i = me
+    · subst h; simp at hi; exact hI.heldlt i k' hi
+    · simp [updT_ne _ _ h] at hi; exact hI.heldlt i k' hi
+  · exact hI.sup
+  · intro s hs
+    simp at hs
+    rcases hs with hs | hs
+    · exact Nat.lt_succ_of_lt (hI.idsS s hs)
+    · omega
+  · intro i s hs
+    by_cases h : i = me
+    · subst h; simp at hs; exact Nat.lt_succ_of_lt (hI.idsT i s hs)
+    · simp [updT_ne _ _ h] at hs; exact Nat.lt_succ_of_lt (hI.idsT i s hs)
+  · intro i s l hs
+    by_cases h : i = me
+    · subst h; simp at hs
+      cases w <;> simp at hs
+      omega
+    · simp [updT_ne _ _ h] at hs; exact Nat.lt_succ_of_lt (hI.idsN i s l hs)
+  · intro s hs; exact hI.idsQ s (by omega)
+  · intro i s l hs
+    by_cases h : i = me
+    · subst h; simp at hs
+      cases w <;> simp at hs
+      obtain ⟨_, rfl⟩ := hs; intro k hk; cases hk
+    · simp [updT_ne _ _ h] at hs; exact hI.snapl i s l hs
+  · exact hI.comp
+  · intro i r hr hwant
+    by_cases h : i = me
+    · subst h; simp at hr ⊢
+      rcases hr with hr | hr
+      · rcases hI.recs i r hr hwant with hc | ⟨l, hl⟩
+        · exact Or.inl hc
+        · rw [hsnap'] at hl; cases hl
+      · subst hr; simp at hwant; subst hwant; right; simp
+    · simp [updT_ne _ _ h] at hr ⊢; exact hI.recs i r hr hwant
+  · exact hI.tshard
+  · intro key ⟨l, hl, hk⟩
+    by_cases h : key.peer = me
+    · rw [h] at hl; simp at hl; rw [hdrop] at hl; cases hl
+    · simp [updT_ne _ _ h] at hl; exact hI.dropped key ⟨l, hl, hk⟩
+  · intro i s k' hh hf hs hns
+    have hcore : (st.threads i).held = some k' ∧ (st.threads i).fresh = true ∧ s ∉ (st.threads i).subs := by
+      by_cases h : i = me
+      · subst h; simp at hh hf hns; exact ⟨hh, hf, hns⟩
+      · simp [updT_ne _ _ h] at hh hf hns; exact ⟨hh, hf, hns⟩
+    simp at hs
+    rcases hs with hs | hs
+    · exact hI.blind i s k' hcore.1 hcore.2.1 hs hcore.2.2
+    · subst hs
+      rw [hq0.1, hq0.2]
+      exact ⟨by simp, fun m key _ => touched_nil m key⟩
+  · intro s hs m key hpre
+    simp at hs
+    rcases hs with hs | hs
+    · rcases hI.viewI s hs m key hpre with hv | ⟨l, hl, hk⟩
+      · left; exact hv
+      · right
+        refine ⟨l, ?_, hk⟩
+        by_cases h : key.peer = me
+        · rw [h] at hl ⊢; simp; exact hl
+        · simp [updT_ne _ _ h]; exact hl
+    · subst hs
+      rw [hq0.1, hq0.2] at hpre
+      rcases hpre with h | h
+      · exact absurd h (touched_nil m key)
+      · simp at h
+
+theorem step_sentinel {st st' : St} {me rest} (hI : Inv st)
+    (hp : (st.threads me).pgm = .sentinel :: rest) (hs : step me st = some st') : Inv st' := by
+  have hme := me_lt hI hp
+  have hw := hI.wf me
+  unfold TWF at hw; rw [hp] at hw
+  cases hsn : (st.threads me).snapping with
+  | none => simp [wfp, hsn] at hw
+  | some sl =>
+    obtain ⟨s0, l0⟩ := sl
+    simp only [wfp, hsn, Option.map_some, Bool.and_eq_true, Option.isNone_iff_eq_none] at hw
+    obtain ⟨hheld, hcov, hrest⟩ := hw
+    simp only [step, hp, hsn] at hs
+    injection hs with hs; subst hs
+    have hs0 := hI.idsN me s0 l0 hsn
+    have hnt : ∀ m key, ¬ touched m key [Ev.eos] := by
+      intro m key ⟨e, he, v, hv⟩; simp at he; subst he; cases m <;> simp [proj] at hv
+    have hq : ∀ s m key, touched m key (send st.queues [s0] [Ev.eos] s) ↔ touched m key (st.queues s) := by
+      intro s m key
+      constructor
+      · intro h; rcases touched_send h with h | ⟨_, h⟩
+        · exact h
+        · exact absurd h (hnt m key)
+      · intro h
+        by_cases hin : s ∈ [s0]
+        · rw [send_in hin, touched_append]; exact Or.inl h
+        · rw [send_out hin]; exact h
+    have hv : ∀ s m key, view m key (send st.queues [s0] [Ev.eos] s) = view m key (st.queues s) := by
+      intro s m key
+      by_cases hin : s ∈ [s0]
+      · rw [send_in hin, view_append, foldl_untouched m key _ _ (hnt m key) (by simp)]
+      · rw [send_out hin]
+    constructor <;> dsimp only
+    · intro i hi
+      have : i ≠ me := by omega
+      simp only [updT_ne _ _ this]; exact hI.idle i hi
+    · intro i
+      by_cases h : i = me
+      · subst h; unfold TWF; simpa using hrest
+      · simpa [updT_ne _ _ h] using hI.wf i
+    · intro i j k' hi hj
+      have hi' : (st.threads i).held = some k' := by
+        by_cases h : i = me
+        · subst h; simpa using hi
+        · simpa [updT_ne _ _ h] using hi
+      have hj' : (st.threads j).held = some k' := by
+        by_cases h : j = me
+        · subst h; simpa using hj
+        · simpa [updT_ne _ _ h] using hj
+      exact hI.excl i j k' hi' hj'
+    · intro i k' hi
+      by_cases h : i = me
+      · subst h; simp at hi; exact hI.heldlt i k' hi
+      · simp [updT_ne _ _ h] at hi; exact hI.heldlt i k' hi
+    · exact hI.sup
+    · exact hI.idsS
+    · intro i s hs
+      by_cases h : i = me
+      · subst h; simp at hs; exact hI.idsT i s hs
+      · simp [updT_ne _ _ h] at hs; exact hI.idsT i s hs
+    · intro i s l hs
+      by_cases h : i = me
+      · subst h; simp at hs
+      · simp [updT_ne _ _ h] at hs; exact hI.idsN i s l hs
+    · intro s hs
+      have : s ∉ [s0] := by simp; omega
+      rw [send_out this]; exact hI.idsQ s hs
+    · intro i s l hs
+      by_cases h : i = me
+      · subst h; simp at hs
+      · simp [updT_ne _ _ h] at hs; exact hI.snapl i s l hs
+    · intro s hs k hk
+      simp at hs
+      rcases hs with hs | hs
+      · subst hs; exact hI.snapl me s l0 hsn k (cover_mem hcov hk)
+      · exact hI.comp s hs k hk
+    · intro i r hr hwant
+      by_cases h : i = me
+      · subst h; simp at hr ⊢
+        rcases hI.recs i r hr hwant with hc | ⟨l, hl⟩
+        · exact Or.inr hc
+        · rw [hsn] at hl; simp at hl; exact Or.inl hl.1.symm
+      · simp [updT_ne _ _ h] at hr ⊢
+        rcases hI.recs i r hr hwant with hc | hl
+        · exact Or.inl (Or.inr hc)
+        · exact Or.inr hl
+    · intro s m key h; exact hI.tshard s m key ((hq s m key).mp h)
+    · intro key ⟨l, hl, hk⟩
+      by_cases h : key.peer = me
+      · rw [h] at hl; simp at hl; exact hI.dropped key ⟨l, h ▸ hl, hk⟩
+      · simp [updT_ne _ _ h] at hl; exact hI.dropped key ⟨l, hl, hk⟩
+    · intro i s k' hh hf hs hns
+      have hb : k' ∉ st.done s ∧ ∀ m key, key.shard = k' → ¬ touched m key (st.queues s) := by
+        by_cases h : i = me
+        · subst h; simp at hh hf hns; exact hI.blind i s k' hh hf hs hns
+        · simp [updT_ne _ _ h] at hh hf hns; exact hI.blind i s k' hh hf hs hns
+      exact ⟨hb.1, fun m key hk h => hb.2 m key hk ((hq s m key).mp h)⟩
+    · intro s hs m key hpre
+      rw [hv]
+      rcases hI.viewI s hs m key (hpre.imp_left (hq s m key).mp) with hv | ⟨l, hl, hk⟩
+      · left; exact hv
+      · right
+        refine ⟨l, ?_, hk⟩
+        by_cases h : key.peer = me
+        · rw [h] at hl ⊢; simp; exact hl
+        · simp [updT_ne _ _ h]; exact hl
+
 end Rbgp.Monitor
